@@ -15,9 +15,12 @@ def one(task):
     key, i = task
     e = catalogue.BY_KEY[key]
     rng = random.Random('%s/foreign/%d' % (key, i))
-    step = e.gen(rng, {'maxwidth': 100, 'nostr': True}, actor='c1')
+    for _ in range(12):
+        step = e.gen(rng, {'maxwidth': 100, 'nostr': True}, actor='c1')
+        idx = [k for k, a in enumerate(step.get('args', [])) if a.get('t') in ('mpf', 'mpc')]
+        if idx:
+            break
     step['id'] = 5
-    idx = [k for k, a in enumerate(step.get('args', [])) if a.get('t') in ('mpf', 'mpc')]
     if not idx:
         return (key, 'noarg', None)
     def run(foreign):
@@ -56,4 +59,4 @@ if __name__ == '__main__':
     bad = sorted(k for k, a in agg.items() if a['DIFF'])
     for k in bad:
         print('%-20s diff=%d same=%d  %s' % (k, agg[k]['DIFF'], agg[k]['same'], agg[k]['ex']))
-    print('%d entries with operands, %d differ: %s' % (sum(1 for a in agg.values() if not a['noarg']), len(bad), ' '.join(bad)))
+    print('%d entries, %d with number operands, %d differ: %s' % (len(agg), sum(1 for a in agg.values() if a['same'] or a['DIFF']), len(bad), ' '.join(bad)))
